@@ -161,9 +161,10 @@ class Drain(object):
     """A free-running real thread that plays the 'reading peer' for payloads larger than the
     kernel buffer.  Its scheduling cannot change the total that is compared."""
 
-    def __init__(self, link):
+    def __init__(self, link, delay=0):
         import threading
         self.link = link
+        self.delay = delay      # the peer starts reading this late (real seconds): the sender meets a full buffer
         self.stop = False
         self.buf = b''
         self.error = None
@@ -187,6 +188,11 @@ class Drain(object):
 
     def _run(self):
         import select as _select
+        if self.delay:
+            import time as _t
+            t_end = _t.time() + self.delay
+            while _t.time() < t_end and not self.stop:
+                _t.sleep(0.005)
         while True:
             r = _select.select([self.fd], [], [], 0.02)[0]
             self.trace.append((bool(r), self.stop))
